@@ -47,6 +47,28 @@ def falsy(v): return not v
 def truthy(v): return bool(v)
 class UserError(Exception):
     """Raised by generated user callables (exempt from the crash-freedom property)."""
+class Ver:
+    """A user type with TWO catching deserializers (from "1.2" and from [1, 2]) and a serializer: std kind "ver"."""
+    def __init__(self, a, b):
+        self.a, self.b = a, b
+    def __eq__(self, other):
+        return type(other) is Ver and (other.a, other.b) == (self.a, self.b)
+    def __hash__(self):
+        return hash((self.a, self.b))
+    def __repr__(self):
+        return f"Ver({self.a}, {self.b})"
+def _ver_from_str(s: str) -> Ver:
+    a, b = s.split(".")
+    return Ver(int(a), int(b))
+def _ver_from_list(l: List[int]) -> Ver:
+    if len(l) != 2:
+        raise ValueError("a version has two components")
+    return Ver(*l)
+def _ver_to_str(v: Ver) -> str:
+    return f"{v.a}.{v.b}"
+deserializer(Conversion(apischema.conversions.catch_value_error(_ver_from_str), source=str, target=Ver))
+deserializer(Conversion(apischema.conversions.catch_value_error(_ver_from_list), source=List[int], target=Ver))
+serializer(_ver_to_str)
 def not13(v):
     if v == 13 and not isinstance(v, bool):
         raise ValidationError("unlucky 13")
@@ -131,7 +153,7 @@ def texpr(t: Dict[str, Any], prog: Dict[str, Any]) -> str:
     if k == "std":
         return {"uuid": "uuid.UUID", "date": "datetime.date", "datetime": "datetime.datetime",
                 "time": "datetime.time", "decimal": "decimal.Decimal", "bytes": "bytes",
-                "path": "pathlib.Path", "ipv4": "ipaddress.IPv4Address"}[t["t"]]
+                "path": "pathlib.Path", "ipv4": "ipaddress.IPv4Address", "ver": "Ver"}[t["t"]]
     raise ValueError(f"unknown type kind {k}")
 
 
@@ -171,7 +193,8 @@ def vexpr(c: Any, prog: Dict[str, Any]) -> str:
         return {"uuid": f"uuid.UUID({img!r})", "date": f"datetime.date.fromisoformat({img!r})",
                 "datetime": f"datetime.datetime.fromisoformat({img!r})", "time": f"datetime.time.fromisoformat({img!r})",
                 "decimal": f"decimal.Decimal({str(img)!r})", "bytes": f"__import__('base64').b64decode({img!r})",
-                "path": f"pathlib.Path({img!r})", "ipv4": f"ipaddress.IPv4Address({img!r})"}[c[1]]
+                "path": f"pathlib.Path({img!r})", "ipv4": f"ipaddress.IPv4Address({img!r})",
+                "ver": f"Ver({', '.join(str(img).split('.'))})"}[c[1]]
     if tag == "nt":  # NewType value: same runtime class as the base
         return vexpr(c[1], prog)
     if tag == "obj":
